@@ -116,6 +116,12 @@ impl U256 {
         ensures r.1 == (self.v() + rhs.v() >= p256()), r.0.v() == (self.v() + rhs.v()) % p256() { unimplemented!() }
     #[verifier::external_body] pub fn overflowing_sub(self, rhs: U256) -> (r: (U256, bool))
         ensures r.1 == (self.v() < rhs.v()), r.0.v() == (if self.v() >= rhs.v() { (self.v() - rhs.v()) as nat } else { (p256() + self.v() - rhs.v()) as nat }) { unimplemented!() }
+    #[verifier::external_body] pub fn saturating_mul(self, rhs: U256) -> (r: U256)
+        ensures r.v() == (if self.v() * rhs.v() < p256() { self.v() * rhs.v() } else { (p256() - 1) as nat }) { unimplemented!() }
+    #[verifier::external_body] pub fn saturating_add(self, rhs: U256) -> (r: U256)
+        ensures r.v() == (if self.v() + rhs.v() < p256() { self.v() + rhs.v() } else { (p256() - 1) as nat }) { unimplemented!() }
+    #[verifier::external_body] pub fn saturating_sub(self, rhs: U256) -> (r: U256)
+        ensures r.v() == (if self.v() >= rhs.v() { (self.v() - rhs.v()) as nat } else { 0nat }) { unimplemented!() }
     #[verifier::external_body] pub fn overflowing_mul(self, rhs: U256) -> (r: (U256, bool))
         ensures r.1 == (self.v() * rhs.v() >= p256()), r.0.v() == (self.v() * rhs.v()) % p256() { unimplemented!() }
     #[verifier::external_body] pub fn zero() -> (r: U256) ensures r.v() == 0 { unimplemented!() }
